@@ -216,6 +216,52 @@ def gen_twin_group(r, gid):
     return out, dict(template=tmpl, values=vals, strings=[sa, sb], buf=hx(bytes(buf)))
 
 
+def gen_chain_group(r, gid):
+    """chained strings (split by the compiler at a jump >= 200 / `[-]`) referenced only as `$a` (SINGLE_MATCH): the head piece occurs
+    several times, the FIRST occurrence at a distance from the tail that the jump does not allow, a later one at a legal distance.
+    Fast mode may stop at the first CONFIRMED match of a single-match string, not at the first occurrence of one of its pieces:
+    verdicts of base / forced / fast variants must agree."""
+    head, tail = r.choice([(b"\xaa\xbb\xcc\xdd", b"\xee\xff\x00\x11"), (b"AB12", b"CD34"), (b"\x01\x02\x03\x04", b"\x05\x06\x07\x08")])
+    lo, hi = r.choice([(250, 300), (200, 210), (0, None), (300, 300)])
+    kind = r.choice(["hex", "hex", "re"])
+    if kind == "hex":
+        jump = "[-]" if hi is None else "[%d-%d]" % (lo, hi)
+        sa = "{ %s %s %s }" % (" ".join("%02x" % x for x in head), jump, " ".join("%02x" % x for x in tail))
+    else:
+        esc = lambda bs: "".join("\\x%02x" % x for x in bs)
+        sa = "/%s.{%d,%s}%s/s" % (esc(head), lo, "" if hi is None else hi, esc(tail))
+    good = r.randint(lo, hi if hi is not None else lo + 40)
+    pre = r.randint(0, 5)
+    layout = r.choice(["wrong-first", "wrong-first", "two-wrong-then-right", "right-only", "wrong-only", "tail-first"])
+    buf = bytearray(b"." * pre)
+    def put(bs): buf.extend(bs)
+    if layout in ("wrong-first", "two-wrong-then-right"):
+        # decoy head(s): too far from the tail (bounded jump) or simply earlier (unbounded jump: any head before the tail is fine,
+        # so the decoy must not complete the chain differently: it is followed by nothing within reach)
+        put(head); put(b"." * r.randint(1, 30))
+        if layout == "two-wrong-then-right":
+            put(head); put(b"." * r.randint(1, 30))
+        if hi is not None:
+            put(b"." * (hi + 20))
+        put(head); put(b"." * good); put(tail)
+    elif layout == "right-only":
+        put(head); put(b"." * good); put(tail)
+    elif layout == "wrong-only":
+        put(head); put(b"." * ((hi + 7) if hi is not None else 5)); put(tail if hi is not None else b"")
+    else:
+        put(tail); put(b"." * 10); put(head); put(b"." * good); put(tail)
+    put(b"." * r.randint(0, 6))
+    cond = r.choice(["$a", "$a", "$a and filesize > 0", "any of them"])
+
+    def rule(c):
+        return "rule t { strings: $a = %s condition: %s }" % (sa, c)
+    b = "buf=" + hx(bytes(buf))
+    out = [("base", "c%d_base src=%s %s" % (gid, hx(rule(cond)), b)),
+           ("forced", "c%d_forced src=%s %s" % (gid, hx(rule("(%s) or filesize < 0" % cond)), b)),
+           ("fast", "c%d_fast src=%s fast=1 %s" % (gid, hx(rule(cond)), b))]
+    return out, dict(template="chain:" + layout, values=[lo, hi, good], strings=[sa], buf=hx(bytes(buf)))
+
+
 def verdicts(line):
     t = line.split()
     if len(t) < 2:
@@ -282,6 +328,10 @@ def run(tier, replay=None):
     groups, lines = [], []
     for g in range(ng):
         vs, meta = gen_twin_group(r, g)
+        groups.append((vs, meta))
+        lines += [l for _, l in vs]
+    for g in range(40 if tier == "quick" else 1200):      # chained strings with decoy heads: fast mode vs normal mode
+        vs, meta = gen_chain_group(r, g)
         groups.append((vs, meta))
         lines += [l for _, l in vs]
     if replay and replay.get("engine") == "twin":
